@@ -16,7 +16,8 @@ META = {
     "assumptions": ["transport faults (C07/C09) are excluded from these histories; inbound ResendRequests are part of them since repo fix 7af4ef7 (their replies are judged by C06)"],
 }
 REQUIRED_ORACLES = ["numbering", "journal-readback", "stored-counter", "refused-send-unchanged", "bystander-session-untouched", "stored-counter-committed"]
-REQUIRED_COUNTERS = ["overlapping_sends_cut_by_a_disconnect", "sends_while_another_task_was_closing_the_connection"]
+REQUIRED_COUNTERS = ["overlapping_sends_cut_by_a_disconnect", "sends_while_another_task_was_closing_the_connection", "journal_commits_failed",
+                     "logons_with_a_suspended_state_callback_and_connection_lost", "logouts_sent_while_the_logon_was_in_the_state_callback"]
 NSHARDS = 16
 N = {"quick": 250, "thorough": 5000}
 
@@ -154,9 +155,9 @@ async def history(acc, clock, rnd, cid):
         for step in range(nsteps):
             st = ep.connection_state
             acts = ["send_app", "send_app", "send_app_stale34", "send_app_dupflag_n", "send_hb", "send_tr", "send_test_req", "send_rr", "send_logon", "send_logout",
-                    "send_seqreset", "send_seqreset_renumber", "send_unrepresentable", "send_unencodable_text", "send_journal_refuses"]
+                    "send_seqreset", "send_seqreset_renumber", "send_unrepresentable", "send_unencodable_text", "send_journal_refuses", "send_journal_commit_fails"]
             if not connected:
-                acts += ["attach"] * 6
+                acts += ["attach"] * 6 + (["attach_lost_in_callback"] if role == "initiator" else [])
             else:
                 acts += ["in_logon", "in_testreq", "in_gapfill", "in_resendreq", "in_gap", "in_app", "in_app", "in_badhb", "in_toolow", "in_logout", "disconnect",
                          "overlap_disconnect", "closing_send"]
@@ -189,6 +190,88 @@ async def history(acc, clock, rnd, cid):
                     if not check_new_frames(tap0):
                         return trace, refused, accepted
                 continue
+            if a == "attach_lost_in_callback":
+                # the initiator's first Logon is inside the application's on_state_change(LOGON_INITIAL_SENT) when the peer hangs up (a
+                # server that refuses a client does exactly that): the send is refused because of the connection state - no number, no row
+                import asyncio
+                E.attach(ep, clock, ConnectionRole.INITIATOR)
+                if not getattr(ep, "vf_read_task", None) or ep.vf_read_task.done():
+                    E.start_reader(ep)
+                else:
+                    await advance(1.1)
+                gate = asyncio.Event()
+                entered = []
+
+                async def slow_cb(st_):
+                    if st_ == ConnectionState.LOGON_INITIAL_SENT:
+                        entered.append(1)
+                        await gate.wait()
+                ep.vf_hooks["on_state_change"] = slow_cb
+                before = snapshot()
+                tap0 = before[0]
+                out = []
+
+                async def snd():
+                    try:
+                        await ep.send_msg(FIXMessage("A", {98: 0, 108: 30}))
+                        out.append("ok")
+                    except FIXConnectionError as e:
+                        out.append(("refused", str(e)))
+                    except Exception as e:
+                        out.append(("raised", repr(e)))
+                tl = asyncio.get_running_loop().create_task(snd())
+                await settle()
+                lost = rnd.random() < 0.6
+                if lost and entered:
+                    ep.vf_reader.feed_eof()
+                    await settle()
+                elif entered and rnd.random() < 0.6:
+                    # another task of the application gives up meanwhile and sends the Logout that this state allows: whichever of the two
+                    # takes its number first is also written first
+                    try:
+                        await ep.send_msg(FIXMessage("5", {58: "changed my mind"}))
+                        accepted += 1
+                        trace[-1] += ":logout-meanwhile-ok"
+                        acc.add("logouts_sent_while_the_logon_was_in_the_state_callback")
+                    except FIXConnectionError:
+                        refused += 1
+                        trace[-1] += ":logout-meanwhile-refused"
+                    except Exception as e:
+                        V(f"send-raised:{type(e).__name__}", f"Logout while the first Logon is inside on_state_change: {e!r}")
+                        return trace, refused, accepted
+                gate.set()
+                await settle()
+                ep.vf_hooks.pop("on_state_change", None)
+                if not tl.done():
+                    tl.cancel()
+                    V("send-never-returned", "Logon sent from a connection lost during on_state_change")
+                    return trace, refused, accepted
+                trace[-1] += f":{'lost' if lost else 'kept'}:{out[0] if out[0] == 'ok' else out[0][0]}"
+                if entered:
+                    acc.add("logons_with_a_suspended_state_callback" + ("_and_connection_lost" if lost else ""))
+                if out[0] == "ok":
+                    accepted += 1
+                    connected = ep.connection_state > ConnectionState.DISCONNECTED_BROKEN_CONN
+                    peer = E.Peer("PEER", "ME")
+                    peer.next_out = ep._session.next_num_in
+                elif out[0][0] == "refused":
+                    refused += 1
+                    acc.oracle("refused-send-unchanged")
+                    after = snapshot()
+                    if after != before:
+                        V("refused-send-has-effects", f"first Logon refused ({out[0][1][:60]}) after the connection was lost inside on_state_change, but live counter "
+                          f"{before[1]}->{after[1]}, stored {before[2]}->{after[2]}, bytes written: {after[0] != before[0]}, journal rows changed: {after[3] != before[3]}")
+                        return trace, refused, accepted
+                else:
+                    after = snapshot()
+                    V("send-raised:" + out[0][1].split("(")[0], f"first Logon, connection lost inside on_state_change: {out[0][1]}; live counter {before[1]}->{after[1]}, "
+                      f"stored {before[2]}->{after[2]}, journal rows changed: {after[3] != before[3]}, bytes written: {after[0] != before[0]}")
+                    return trace, refused, accepted
+                if ep.connection_state <= ConnectionState.DISCONNECTED_BROKEN_CONN:
+                    connected = False
+                if not check_new_frames(tap0):
+                    return trace, refused, accepted
+                continue
             if a.startswith("send"):
                 m = {"send_app": lambda: FIXMessage("D", {11: f"c{step}", 55: "X"}),
                      # a new message that still carries a MsgSeqNum tag (e.g. a decoded message relayed to this session): a new number is allocated
@@ -209,6 +292,9 @@ async def history(acc, clock, rnd, cid):
                      "send_unencodable_text": lambda: FIXMessage("D", {11: f"u{step}", 55: "X", 58: "caf\udce9"}),
                      # the journal refuses the row (disk full, locked by another process): nothing is sent, no number is spent
                      "send_journal_refuses": lambda: FIXMessage("D", {11: f"jr{step}", 55: "X"}),
+                     # the row and the counter update are executed, the COMMIT fails (the file is locked by a reader for longer than the
+                     # busy timeout, the disk fills at the sync): refused all the same - nothing may stay pending in the journal's connection
+                     "send_journal_commit_fails": lambda: FIXMessage("D", {11: f"jc{step}", 55: "X"}),
                      "send_test_req": None}[a]
                 undo_journal = None
                 if a == "send_journal_refuses":
@@ -221,6 +307,21 @@ async def history(acc, clock, rnd, cid):
 
                     def undo_journal():
                         del j.persist_msg
+                if a == "send_journal_commit_fails":
+                    import sqlite3
+                    real_conn = j.conn
+
+                    class CommitFails:
+                        def __getattr__(self, n):
+                            return getattr(real_conn, n)
+
+                        def commit(self):
+                            acc.add("journal_commits_failed")
+                            raise sqlite3.OperationalError("database is locked")
+                    j.conn = CommitFails()
+
+                    def undo_journal():
+                        j.conn = real_conn
                 try:
                     if a == "send_test_req":
                         await ep.send_test_req()
@@ -255,7 +356,7 @@ async def history(acc, clock, rnd, cid):
                         return trace, refused, accepted
                     continue
                 except Exception as e:
-                    if a in ("send_unrepresentable", "send_unencodable_text", "send_journal_refuses"):
+                    if a in ("send_unrepresentable", "send_unencodable_text", "send_journal_refuses", "send_journal_commit_fails"):
                         refused += 1
                         trace[-1] += f":refused-by-encoder:{type(e).__name__}"
                         acc.oracle("refused-send-unchanged")
